@@ -19,9 +19,10 @@ implementation only.
 
 Where the code does not do what the property asks, the table records the code and the theorem lists the
 exception explicitly (`closedExceptions`, `releasedExceptions`, `roWriteExceptions`,
-`setReadOnly_quiesces_full_refuted`, `sharedRO_two_owners`, `heldIterator_unspecified`).  Four earlier exceptions
+`sharedRO_two_owners`, `heldIterator_unspecified`).  Five earlier exceptions
 are gone because the repository was repaired (read-only `Open` with several journals, `NewIterator` racing `Close`,
-`Snapshot.String` on a released snapshot, `Transaction.Write` of an empty batch on a finished transaction): the
+`Snapshot.String` on a released snapshot, `Transaction.Write` of an empty batch on a finished transaction, table
+compaction after `SetReadOnly` — D14, see `setReadOnly_quiesces_refuted_without_parking`): the
 tables and theorems state the repaired behaviour, the old one is kept as a remark where it was recorded.
 -/
 namespace GoLevel.C18
@@ -135,7 +136,7 @@ theorem closed_is_closed :
   · intro c s e hm
     exact step_closed c s e hm
   · intro c s m p hm
-    obtain ⟨mode, bg, frozen, due, pins, tx⟩ := s
+    obtain ⟨mode, bg, frozen, due, pins, tx, running⟩ := s
     simp only at hm; subst hm
     simp [step, stepDB, dbTable]
   · intro m h1 h2; cases m <;> first | decide | simp_all
@@ -146,10 +147,10 @@ theorem closed_is_closed :
   · intro h m; cases h <;> cases m <;> decide
 
 /-- non-vacuity: close an open DB with an open transaction, then call things -/
-example : (run ⟨true⟩ ⟨.openRW, true, true, 2, 0, .live⟩
+example : (run ⟨true, false⟩ ⟨.openRW, true, true, 2, 0, .live, false⟩
       [.db .close 1, .db .close 0, .db .get 1, .db .put 1, .tx .get 0, .tx .commit 0, .bgFlush 1, .bgCompact 1,
        .snap .live .get 1, .iter .live .next 1]).2 = [.remove, .remove, .closeFile, .unlock] := by decide
-example : (step ⟨true⟩ ⟨.closed, false, true, 2, 0, .discarded⟩ (.db .close 0)).cls = .closed := by decide
+example : (step ⟨true, false⟩ ⟨.closed, false, true, 2, 0, .discarded, false⟩ (.db .close 0)).cls = .closed := by decide
 /-- the transaction that was open at `Close` has been discarded by it: even an empty `Write` says so -/
 example : (txTable .closed .live .writeEmpty).cls = .txdone ∧ (txTable .closed .live .discard).cls = .ok := by decide
 
@@ -248,48 +249,96 @@ theorem ro_no_mutation (c : Cfg) (due : Nat) (es : List Ev) :
 
 /-- non-vacuity: a read-only session with writes refused, reads that exhaust seek allowances, handles, background
 events and `Close` emits only non-mutating actions — and some actions are emitted -/
-example : (run ⟨true⟩ (opened true 3)
+example : (run ⟨true, false⟩ (opened true 3)
       [.db .put 1, .db .get 1, .db .sizeOf 0, .snap .live .get 1, .iter .live .next 1, .iter .live .release 1,
        .bgCompact 1, .bgFlush 1, .db .openTransaction 1, .tx .put 1, .db .close 0, .db .get 0]).2
     = [.open, .read, .closeFile, .unlock] := by decide
 /-- the same events on a DB that is open read-write do mutate -/
-example : nMut (run ⟨true⟩ (opened false 3)
+example : nMut (run ⟨true, false⟩ (opened false 3)
       [.db .put 1, .db .get 1, .bgCompact 1, .bgFlush 1]).2 > 0 := by decide
 
 /-! ## SetReadOnly -/
 
 /-- `SetReadOnly` on an open DB without an open transaction: the DB is read-only from then on; what the
-background loops had to do is unchanged (the call does not wait for it).  With an open transaction it blocks. -/
+background loops had to do is unchanged (the call does not wait for it; `p > 0` says that one of the due table
+compactions is running at that moment).  With an open transaction it blocks. -/
 theorem setReadOnly_enters (c : Cfg) (s : St) (p : Nat) (hm : s.mode = .openRW) :
-    (s.tx ≠ .live → (step c s (.db .setReadOnly p)).st = { s with mode := .switchedRO }
+    (s.tx ≠ .live → (step c s (.db .setReadOnly p)).st =
+          { s with mode := .switchedRO, running := s.bg && decide (p > 0) && decide (s.due > 0) }
         ∧ (step c s (.db .setReadOnly p)).cls = .ok ∧ (step c s (.db .setReadOnly p)).acts = [])
     ∧ (s.tx = .live → (step c s (.db .setReadOnly p)).st = s ∧ (step c s (.db .setReadOnly p)).cls = .blocks) := by
-  obtain ⟨mode, bg, frozen, due, pins, tx⟩ := s
+  obtain ⟨mode, bg, frozen, due, pins, tx, running⟩ := s
   simp only at hm; subst hm
   cases tx <;> simp [step, stepDB, stepRW, dbTable, DBm.needsWriteLock, DBm.isWrite, DBm.isRead]
 
-/-- The events that complete the work in flight: the pending flush, the due compactions (none of which makes
+/-- The events that complete the work that was in flight when `SetReadOnly` was called: the pending flush, the
+table compaction that was running (when `tCompaction` does not park: every due compaction — none of which makes
 another one due or is deferred), the release of the iterators that pin replaced tables. -/
-def drainEvents (s : St) : List Ev :=
-  [.bgFlush 0] ++ List.replicate s.due (.bgCompact 0) ++ List.replicate s.pins (.iter .live .release 1)
+def drainEvents (c : Cfg) (s : St) : List Ev :=
+  [.bgFlush 0] ++ (if c.parks then [.bgCompact 0] else List.replicate s.due (.bgCompact 0))
+    ++ List.replicate s.pins (.iter .live .release 1)
 
 /-- no seek-triggered compaction can start: the option is off, or no read of the history exhausts an allowance -/
 def NoSeekTrigger (c : Cfg) (es : List Ev) : Prop := c.seeks = false ∨ ∀ e ∈ es, e.seekHit = false
 
-/-- the full wish: after `SetReadOnly` and the drain, nothing mutates storage any more, whatever is called -/
-def setReadOnly_quiesces_full : Prop :=
-  ∀ (c : Cfg) (s : St) (es : List Ev), s.mode = .switchedRO → s.tx ≠ .live → s.drained = true →
+/-- **FULL statement, for a `tCompaction` that parks once the DB is read-only** (`c.parks`).  After `SetReadOnly`
+and the completion of the work that was in flight (`s.settled`: the pending flush has completed, the table
+compaction that was running has completed, no replaced tables are still pinned by an iterator — compactions may
+well be *due*), whatever is called afterwards — every method of the DB and of every snapshot, transaction and
+iterator handle with any argument behaviour, INCLUDING reads that exhaust seek allowances, background events,
+`Close` and anything after it — no `create`/`write`/`sync`/`remove`/`rename`/`setMeta` is emitted, and the state
+stays settled.  No assumption on the events.  What is modelled: `mCompaction` completes a pending flush whatever
+the mode; `tCompaction` consults the read-only flag before it starts anything; writers are refused before they
+reach the journal; reads charge seeks (`due` grows) but nobody acts on it. -/
+theorem setReadOnly_quiesces (c : Cfg) (hc : c.parks = true) (s : St) (es : List Ev)
+    (hm : s.mode = .switchedRO) (ht : s.tx ≠ .live) (hd : s.settled = true) :
+    (∀ a ∈ (run c s es).2, a.mutating = false) ∧ (run c s es).1.settled = true := by
+  have h := run_inv c PkInv (fun _ => True) (fun a => a.mutating = false)
+    (fun s e hI _ => PkInv_step c hc s e hI) s es ⟨Or.inl hm, hd, ht⟩ (fun _ _ => trivial)
+  exact ⟨h.2, h.1.2.1⟩
+
+/-- The code as it is parks (`Gen.roCompactionParks`, regenerated from `tCompaction`/`SetReadOnly` on every run:
+un-fixing the source turns the fact to `false` and breaks this proof): the full statement holds for the code's
+configuration, with seek compaction enabled or not. -/
+theorem code_setReadOnly_quiesces (seeks : Bool) (s : St) (es : List Ev)
+    (hm : s.mode = .switchedRO) (ht : s.tx ≠ .live) (hd : s.settled = true) :
+    (∀ a ∈ (run (codeCfg seeks) s es).2, a.mutating = false) ∧ (run (codeCfg seeks) s es).1.settled = true :=
+  setReadOnly_quiesces (codeCfg seeks) (show Gen.roCompactionParks = true by decide) s es hm ht hd
+
+/-- non-vacuity: SetReadOnly with a flush pending, two compactions due of which one is running, and one pinned
+table set; the drain mutates and settles with a compaction still due; afterwards a long history of calls —
+reads that exhaust seek allowances and wake-ups of `tCompaction` included — mutates nothing -/
+example :
+    let c := codeCfg true
+    let s1 := (run c ⟨.openRW, true, true, 2, 1, .committed, false⟩ [.db .setReadOnly 1]).1
+    let s2 := (run c s1 (drainEvents c s1)).1
+    s1.mode = .switchedRO ∧ s1.running = true ∧ nMut (run c s1 (drainEvents c s1)).2 > 0
+    ∧ s2.settled = true ∧ s2.due = 1
+    ∧ (run c s2 [.db .get 1, .bgCompact 0, .snap .live .get 1, .bgCompact 1, .iter .live .next 1, .bgCompact 2,
+          .db .put 1, .db .compactRange 1, .iter .live .release 1, .bgFlush 1, .tx .put 1, .db .close 0,
+          .db .get 1]).2 = [.closeFile, .unlock] := by decide
+
+/-- The drain completes the work in flight (parking loop): flush, the running compaction, the pinned tables. -/
+theorem drain_settles (c : Cfg) (hc : c.parks = true) (s : St) (hm : s.mode = .switchedRO) (hb : s.bg = true) :
+    (run c s (drainEvents c s)).1.settled = true ∧ (run c s (drainEvents c s)).1.mode = .switchedRO := by
+  obtain ⟨mode, bg, frozen, due, pins, tx, running⟩ := s
+  simp only at hm hb; subst hm hb
+  simp only [drainEvents, hc, if_true]
+  rw [run_fst_append, run_fst_append, run_flush, run_finish_running c hc, run_unpins]
+  exact ⟨by simp [St.settled], rfl⟩
+
+/-! ### the loop as it was before the repair (record of D14) -/
+
+/-- the statement `setReadOnly_quiesces` for one configuration, with "drained" (nothing due either) as the
+premise — the most that could be asked of a loop that does not park -/
+def QuiescesFrom (c : Cfg) : Prop :=
+  ∀ (s : St) (es : List Ev), s.mode = .switchedRO → s.tx ≠ .live → s.drained = true →
     ∀ a ∈ (run c s es).2, a.mutating = false
 
-/-- PARTIAL (the full statement `setReadOnly_quiesces_full` is false for the code as it is, see
-`setReadOnly_quiesces_full_refuted`).  After `SetReadOnly`, once the work in flight has completed (`s.drained`:
-no frozen buffer, no compaction due, no replaced tables pinned by an iterator), and **assuming that no read
-starts a seek-triggered compaction** (`NoSeekTrigger`: `DisableSeeksCompaction`, or no read exhausts a table's
-seek allowance): whatever is called — every method of the DB and of every handle, background events, `Close` —
-no mutating storage action is emitted, and the DB stays drained.  What is modelled: `tCompaction`/`mCompaction`
-keep running after `SetReadOnly` and do not look at the read-only state; writers are refused before they reach
-the journal.  What is assumed: the abstraction of the loops to "flush pending / n compactions due / n pinned
-table sets", and that a compaction becomes due only through a flush, a compaction, or a seek trigger. -/
+/-- Whatever the configuration: after `SetReadOnly`, once the work in flight has completed and nothing is due
+(`s.drained`), and **assuming that no read starts a seek-triggered compaction** (`NoSeekTrigger`:
+`DisableSeeksCompaction`, or no read exhausts a table's seek allowance), no mutating storage action is emitted
+and the DB stays drained.  This is all that held for the loop that did not look at the read-only state. -/
 theorem setReadOnly_quiesces_partial (c : Cfg) (s : St) (es : List Ev)
     (hm : s.mode = .switchedRO) (ht : s.tx ≠ .live) (hd : s.drained = true) (hq : NoSeekTrigger c es) :
     (∀ a ∈ (run c s es).2, a.mutating = false) ∧ (run c s es).1.drained = true := by
@@ -302,55 +351,73 @@ theorem setReadOnly_quiesces_partial (c : Cfg) (s : St) (es : List Ev)
       · exact Or.inr (hq e he))
   exact ⟨h.2, h.1.2.1⟩
 
-/-- non-vacuity: SetReadOnly with a flush and two compactions in flight and one pinned table set; the drain
-mutates, afterwards a long history of calls does not -/
-example :
-    let s1 := (run ⟨true⟩ ⟨.openRW, true, true, 2, 1, .committed⟩ [.db .setReadOnly 0]).1
-    let s2 := (run ⟨true⟩ s1 (drainEvents s1)).1
-    s1.mode = .switchedRO ∧ nMut (run ⟨true⟩ s1 (drainEvents s1)).2 > 0 ∧ s2.drained = true
-    ∧ (run ⟨true⟩ s2 [.db .put 1, .db .get 0, .db .compactRange 1, .iter .live .next 0, .iter .live .release 1,
-          .bgFlush 1, .bgCompact 1, .tx .put 1, .db .close 0]).2 = [.closeFile, .unlock] := by decide
-
-/-- The drain completes the work in flight when nothing new becomes due during it. -/
-theorem drain_completes (c : Cfg) (s : St) (hm : s.mode = .switchedRO) (hb : s.bg = true) :
-    (run c s (drainEvents s)).1.drained = true ∧ (run c s (drainEvents s)).1.mode = .switchedRO := by
-  obtain ⟨mode, bg, frozen, due, pins, tx⟩ := s
-  simp only at hm hb; subst hm hb
-  simp only [drainEvents]
-  rw [run_fst_append, run_fst_append, run_flush, run_compacts, run_unpins]
+/-- The drain completes the work in flight when nothing new becomes due during it (loop that does not park). -/
+theorem drain_completes (c : Cfg) (hc : c.parks = false) (s : St) (hm : s.mode = .switchedRO) (hb : s.bg = true)
+    (hr : s.running = true → s.due > 0) :
+    (run c s (drainEvents c s)).1.drained = true ∧ (run c s (drainEvents c s)).1.mode = .switchedRO := by
+  obtain ⟨mode, bg, frozen, due, pins, tx, running⟩ := s
+  simp only at hm hb hr; subst hm hb
+  simp only [drainEvents, hc, Bool.false_eq_true, if_false]
+  rw [run_fst_append, run_fst_append, run_flush, run_compacts c hc _ _ _ _ hr, run_unpins]
   exact ⟨by simp [St.drained], rfl⟩
 
-/-- The code as it is (the defect behind the partial statement): on a drained, switched-to-read-only DB with
-seek compaction enabled, one read that exhausts a seek allowance makes `tCompaction` run a compaction —
-creating, writing, syncing and removing files. -/
-theorem setReadOnly_quiesces_full_refuted : ¬ setReadOnly_quiesces_full := by
-  intro h
-  have := h ⟨true⟩ ⟨.switchedRO, true, false, 0, 0, .none⟩ [.db .get 1, .bgCompact 0] rfl (by decide) rfl
-    .create (by decide)
-  exact absurd this (by decide)
+/-- Record of D14 (repaired in the repository; `code_setReadOnly_quiesces` is the statement for the code as it is
+now): with a `tCompaction` that does not consult the read-only state and seek compaction enabled, a drained,
+switched-to-read-only DB does not stay quiet — one read that exhausts a seek allowance makes the loop run a
+compaction, creating, writing, syncing and removing files.  With parking the same history is silent. -/
+theorem setReadOnly_quiesces_refuted_without_parking :
+    ¬ QuiescesFrom ⟨true, false⟩ ∧ QuiescesFrom ⟨true, true⟩ := by
+  constructor
+  · intro h
+    have := h ⟨.switchedRO, true, false, 0, 0, .none, false⟩ [.db .get 1, .bgCompact 0] rfl (by decide) rfl
+      .create (by decide)
+    exact absurd this (by decide)
+  · intro s es hm ht hd
+    have hs : s.settled = true := by
+      have := (drained_iff s).mp hd
+      simp [St.settled, this.1, this.2.2.1, this.2.2.2]
+    exact (setReadOnly_quiesces ⟨true, true⟩ rfl s es hm ht hs).1
+
+example : nMut (run ⟨true, false⟩ ⟨.switchedRO, true, false, 0, 0, .none, false⟩ [.db .get 1, .bgCompact 0]).2 > 0
+    ∧ nMut (run (codeCfg true) ⟨.switchedRO, true, false, 0, 0, .none, false⟩ [.db .get 1, .bgCompact 0]).2 = 0 := by
+  decide
 
 /-! ## the tables and the machine agree -/
 
-/-- background work a state still enables -/
-def bgWork (s : St) : Nat := if s.bg && s.mode != .closed then b2n s.frozen + s.due + s.pins else 0
+/-- background work a state still enables (a due compaction counts only where `tCompaction` would start it) -/
+def bgWork (c : Cfg) (s : St) : Nat :=
+  if s.bg && s.mode != .closed then
+    b2n s.frozen + (if c.parks && s.mode == .switchedRO then b2n s.running else s.due) + s.pins
+  else 0
 
 /-- reachable shape: a DB opened read-only has no background goroutines and pins nothing; a live transaction
 exists only on an open read-write DB -/
 def Wf (s : St) : Prop := (s.mode = .openRO → s.bg = false ∧ s.pins = 0) ∧ txReachable s.mode s.tx = true
 
-theorem bgWork_nobg (s : St) (h : s.bg = false) : bgWork s = 0 := by simp [bgWork, h]
-theorem bgWork_charge_nobg (c : Cfg) (s : St) (b : Bool) (h : s.bg = false) : bgWork (chargeSeek c s b) = 0 :=
-  bgWork_nobg _ (by rw [chargeSeek_bg]; exact h)
+theorem bgWork_nobg (c : Cfg) (s : St) (h : s.bg = false) : bgWork c s = 0 := by simp [bgWork, h]
+theorem bgWork_charge_nobg (c : Cfg) (s : St) (b : Bool) (h : s.bg = false) : bgWork c (chargeSeek c s b) = 0 :=
+  bgWork_nobg _ _ (by rw [chargeSeek_bg]; exact h)
 
+
+theorem b2n_and_le (p due : Nat) : b2n (decide (0 < p) && decide (0 < due)) ≤ due := by
+  by_cases h : 0 < due <;> by_cases hp : 0 < p <;> simp [b2n, h, hp] <;> omega
+
+/-- under a parking loop a charged seek enables nothing on a DB that was switched to read-only -/
+theorem bgWork_charge_parked (seeks : Bool) (s : St) (b : Bool) (hm : s.mode = .switchedRO) :
+    bgWork ⟨seeks, true⟩ (chargeSeek ⟨seeks, true⟩ s b) = bgWork ⟨seeks, true⟩ s := by
+  unfold chargeSeek
+  split <;> simp [bgWork, hm]
 
 /-- The machine returns the class of the table, and a table entry "does not mutate" means for the machine: the
 call emits no mutating action and leaves no more background work enabled than there was.  (This is the link
-between the `life` lines, which test the tables against the implementation, and the machine theorems.) -/
-theorem table_sound (c : Cfg) (s : St) (m : DBm) (p : Nat) (hw : Wf s) :
+between the `life` lines, which test the tables against the implementation, and the machine theorems.)  The tables
+describe the code as it is, so the machine is taken in a configuration that agrees with the code on whether
+`tCompaction` parks. -/
+theorem table_sound (c : Cfg) (hcfg : c.parks = Gen.roCompactionParks) (s : St) (m : DBm) (p : Nat) (hw : Wf s) :
     (step c s (.db m p)).cls = (dbTable s.mode (s.tx == .live) m).cls
     ∧ ((dbTable s.mode (s.tx == .live) m).mutates = false →
-        (∀ a ∈ (step c s (.db m p)).acts, a.mutating = false) ∧ bgWork (step c s (.db m p)).st ≤ bgWork s) := by
-  obtain ⟨mode, bg, frozen, due, pins, tx⟩ := s
+        (∀ a ∈ (step c s (.db m p)).acts, a.mutating = false) ∧ bgWork c (step c s (.db m p)).st ≤ bgWork c s) := by
+  obtain ⟨mode, bg, frozen, due, pins, tx, running⟩ := s
   obtain ⟨h1, h2⟩ := hw
   simp only at h1 h2
   constructor
@@ -368,6 +435,10 @@ theorem table_sound (c : Cfg) (s : St) (m : DBm) (p : Nat) (hw : Wf s) :
       cases m <;> cases tx <;>
         simp_all [step, stepDB, stepRW, dbTable, DBm.needsWriteLock, DBm.isWrite, DBm.isRead, chargeSeek, bgWork,
           Act.mutating, readCls]
+      all_goals
+        have := b2n_and_le p due
+        cases bg <;> simp
+        split <;> omega
     · -- openRO
       have hb := (h1 rfl).1
       have hp := (h1 rfl).2
@@ -376,9 +447,24 @@ theorem table_sound (c : Cfg) (s : St) (m : DBm) (p : Nat) (hw : Wf s) :
         simp_all [step, stepDB, stepRO, closeRes, dbTable, DBm.isRead, DBm.needsWriteLock, DBm.isWrite, bgWork_charge_nobg, bgWork_nobg, TxSt.afterClose, readCls,
           Act.mutating, txReachable]
     · -- switchedRO
-      cases m <;> cases tx <;>
-        simp_all [step, stepDB, stepRO, dbTable, DBm.isRead, DBm.needsWriteLock, DBm.isWrite, chargeSeek, bgWork, readCls,
-          Act.mutating, txReachable]
+      obtain ⟨seeks, parks⟩ := c
+      simp only at hcfg; subst hcfg
+      have hb : Gen.roCompactionParks = true ∨ Gen.roCompactionParks = false := by
+        cases Gen.roCompactionParks <;> simp
+      rcases hb with hb | hb
+      · -- the loop parks: a read charges a seek and nothing comes of it
+        rw [hb]
+        by_cases hcl : m = .close
+        · subst hcl; simp [dbTable] at hmut
+        · by_cases hsz : m = .sizeOf
+          · subst hsz; simp [step, stepDB, stepRO, Act.mutating]
+          · simp only [step, stepDB, stepRO, hcl, hsz, if_false]
+            exact ⟨by simp, Nat.le_of_eq (bgWork_charge_parked seeks _ _ rfl)⟩
+      · -- the loop does not park: reads are entered as "may mutate"
+        rw [hb]
+        cases m <;> cases tx <;>
+          simp_all [step, stepDB, stepRO, dbTable, DBm.isRead, DBm.needsWriteLock, DBm.isWrite, chargeSeek, bgWork, readCls,
+            Act.mutating, txReachable, roReadsWakeCompaction]
     · -- closed
       simp [step, stepDB, bgWork]
 
@@ -386,7 +472,8 @@ example : Wf (opened true 2) ∧ Wf (opened false 2) := by
   refine ⟨⟨fun _ => ⟨rfl, rfl⟩, rfl⟩, ⟨fun h => ?_, rfl⟩⟩
   simp [opened] at h
 /-- non-vacuity: an entry that does not mutate, and one that may -/
-example : (dbTable .openRO false .get).mutates = false ∧ (dbTable .switchedRO false .get).mutates = true
+example : (dbTable .openRO false .get).mutates = false ∧ (dbTable .switchedRO false .get).mutates = false
+    ∧ (dbTable .switchedRO false .close).mutates = true
     ∧ (dbTable .openRW false .put).mutates = true := by decide
 
 end GoLevel.C18
@@ -397,6 +484,7 @@ def C18.theorems : List String :=
    "GoLevel.C18.sharedRO_two_owners", "GoLevel.C18.openRO_any_journals",
    "GoLevel.C18.closed_is_closed", "GoLevel.C18.heldIterator_unspecified", "GoLevel.C18.released_handles",
    "GoLevel.C18.ro_rejects_writes", "GoLevel.C18.ro_no_mutation",
-   "GoLevel.C18.setReadOnly_enters", "GoLevel.C18.setReadOnly_quiesces_partial", "GoLevel.C18.drain_completes",
-   "GoLevel.C18.setReadOnly_quiesces_full_refuted", "GoLevel.C18.table_sound"]
+   "GoLevel.C18.setReadOnly_enters", "GoLevel.C18.setReadOnly_quiesces", "GoLevel.C18.code_setReadOnly_quiesces",
+   "GoLevel.C18.drain_settles", "GoLevel.C18.setReadOnly_quiesces_partial", "GoLevel.C18.drain_completes",
+   "GoLevel.C18.setReadOnly_quiesces_refuted_without_parking", "GoLevel.C18.table_sound"]
 end GoLevel
